@@ -42,7 +42,8 @@ def cases(draw):
                                   st.tuples(st.just("set_scheduler"), lineups()),
                                   st.tuples(st.just("checkpoint")), st.tuples(st.just("read")),
                                   st.tuples(st.just("restore")), st.tuples(st.just("new_run"), lineups()),
-                                  st.tuples(st.just("failing_batch"))),
+                                  st.tuples(st.just("failing_batch")),
+                                  st.tuples(st.just("scheduler_grows"), lineups())),
                         min_size=2, max_size=8))
     ops = [list(o) for o in ops] + [["read"]]
     return {"initial": draw(lineups()), "ops": ops, "seed": draw(st.integers(0, 1000))}
@@ -69,7 +70,7 @@ def check_labels(ctx: Ctx, case):
     seen = {gen.CLASS_NAMES[s["kind"]] for s in cfg["lineup"]}
     newclass_then_cal_then_read, stage = False, 0
     for op in case["ops"]:
-        if op[0] in ("set_samplers", "set_scheduler"):
+        if op[0] in ("set_samplers", "set_scheduler", "scheduler_grows"):
             names = {gen.CLASS_NAMES[s["kind"]] for s in op[1]}
             if names - seen:
                 stage = 1
@@ -102,7 +103,7 @@ def check_labels(ctx: Ctx, case):
                     last_write_complete = True
                 elif op[0] == "new_run":
                     last_write_complete = False
-                elif op[0] in ("set_samplers", "set_scheduler"):
+                elif op[0] in ("set_samplers", "set_scheduler", "scheduler_grows"):
                     last_write_complete = False   # the folder no longer holds the live state: restoring would rewind
                 rows = cal.n_sampled_params
                 if op[0] == "calibrate":
@@ -111,7 +112,16 @@ def check_labels(ctx: Ctx, case):
                 elif op[0] == "set_samplers":
                     cal.set_samplers([gen.make_sampler(s) for s in usable(op[1], rows)])
                 elif op[0] == "set_scheduler":
-                    cal.set_scheduler(RoundRobinScheduler([gen.make_sampler(s) for s in usable(op[1], rows)]))
+                    from harness.stubs import GrowingRoundRobin
+                    cal.set_scheduler(GrowingRoundRobin([gen.make_sampler(s) for s in usable(op[1], rows)]))
+                elif op[0] == "scheduler_grows":
+                    # a user-defined scheduler that manages its own line-up gains samplers, and is installed again (the same
+                    # object) so that the calibrator takes note of the new classes
+                    from harness.stubs import GrowingRoundRobin
+                    if isinstance(cal.scheduler, GrowingRoundRobin):
+                        for spec in usable(op[1], rows):
+                            cal.scheduler.add_sampler(gen.make_sampler(spec))
+                        cal.set_scheduler(cal.scheduler)
                 elif op[0] == "checkpoint":
                     cal.create_checkpoint(folder)
                     written = True
